@@ -35,16 +35,30 @@ const (
 	hwCollide        // maps with digest tables: inline and EXTERNAL collision groups
 	hwNested         // a parent array holding inlined arrays / maps (with large values and external collision groups inside), wrappers around references and around children
 	hwEmpty          // no slab at all
-	hwKinds
+	hwKinds          // the kinds the seeded rotation goes through
+	// directed kinds, built on every run whatever the seed
+	hwSingle = hwKinds // containers holding exactly ONE element: every traversal level is one child storable
 )
 
-var hwNames = [...]string{"arrays", "maps", "collide", "nested", "empty"}
+var hwNames = [...]string{"arrays", "maps", "collide", "nested", "empty", "single"}
+
+// hwCont: what is needed to obtain a handle to a top-level container of a world again (by root
+// identifier, on another storage over the same ledger) and to address one of its elements.
+type hwCont struct {
+	root    atree.SlabID
+	isMap   bool
+	builder atree.DigesterBuilder
+	keys    []hx.TV // maps: the keys set, in insertion order
+	n       int     // arrays: number of elements
+	plain   bool    // every element is a plain value (large ones in their own slab): an overwritten element is disposed of by one Remove
+}
 
 type healthWorld struct {
 	ledger *hx.Ledger
 	ps     *atree.PersistentSlabStorage
 	kind   int
 	roots  []atree.SlabID // the root slabs of the top-level containers, known from construction
+	conts  []hwCont
 }
 
 func hcMust(err error) {
@@ -70,6 +84,8 @@ func buildWorld(seed int64, kind int, committed bool) *healthWorld {
 	case hwNested:
 		buildNested(rng, w)
 	case hwEmpty:
+	case hwSingle:
+		buildSingle(rng, w)
 	}
 	if committed {
 		hcMust(w.ps.FastCommit(2))
@@ -99,6 +115,7 @@ func buildArrays(rng *rand.Rand, w *healthWorld) {
 			hcMust(a.Append(hx.TV{Size: size, Pay: uint64(1000*k + i)}))
 		}
 		w.roots = append(w.roots, a.SlabID())
+		w.conts = append(w.conts, hwCont{root: a.SlabID(), n: n, plain: true})
 	}
 }
 
@@ -126,6 +143,10 @@ func buildMaps(rng *rand.Rand, w *healthWorld, collide bool) {
 		if k == 0 {
 			n = 60 + rng.Intn(140)
 		}
+		c := hwCont{root: m.SlabID(), isMap: true, plain: true}
+		if collide {
+			c.builder = b // (the default builder is seeded per map: a handle opened later gets a new one)
+		}
 		for i := 0; i < n; i++ {
 			key := hx.TV{Size: uint32(9 + rng.Intn(8)), Pay: uint64(100000*k + i + 1)}
 			if !collide && rng.Intn(15) == 0 {
@@ -137,8 +158,10 @@ func buildMaps(rng *rand.Rand, w *healthWorld, collide bool) {
 			}
 			_, err := m.Set(hx.CompareKey, hx.HashInput, key, hx.TV{Size: size, Pay: uint64(7000000 + 1000*k + i)})
 			hcMust(err)
+			c.keys = append(c.keys, key)
 		}
 		w.roots = append(w.roots, m.SlabID())
+		w.conts = append(w.conts, c)
 	}
 }
 
@@ -241,6 +264,73 @@ func buildNested(rng *rand.Rand, w *healthWorld) {
 	}
 }
 
+// buildSingle: top-level containers that hold exactly ONE element, of every shape, so that the
+// level-by-level ChildStorables traversals (CheckStorageHealth, SlabIterator,
+// getAllChildReferences) meet levels that consist of a single child storable - a reference, a
+// wrapper, an inlined container - at the first level and further down.  The set of shapes does
+// not depend on the seed (only sizes and payloads do).
+func buildSingle(rng *rand.Rand, w *healthWorld) {
+	pay := uint64(0)
+	next := func() uint64 { pay++; return pay }
+	large := func() hx.TV { return hx.TV{Size: 130 + uint32(rng.Intn(40)), Pay: next()} }
+	small := func() hx.TV { return hx.TV{Size: uint32(3 + rng.Intn(12)), Pay: next()} }
+	arrayOf := func(addr atree.Address, ti uint64, vs ...atree.Value) *atree.Array {
+		a, err := atree.NewArray(w.ps, addr, hx.TI(ti))
+		hcMust(err)
+		for _, v := range vs {
+			hcMust(a.Append(v))
+		}
+		return a
+	}
+	mapOf := func(addr atree.Address, ti uint64, v atree.Value) *atree.OrderedMap {
+		m, err := atree.NewMap(w.ps, addr, atree.NewDefaultDigesterBuilder(), hx.TI(ti))
+		hcMust(err)
+		_, err = m.Set(hx.CompareKey, hx.HashInput, hx.TV{Size: 9, Pay: next()}, v)
+		hcMust(err)
+		return m
+	}
+	for shape := 0; shape < 9; shape++ {
+		addr := hx.MkAddr(uint64(1 + shape%2))
+		var v atree.Value
+		switch shape {
+		case 0: // [ref]: the root's only child storable is a reference to a large-value slab
+			v = large()
+		case 1: // [W(ref)]
+			v = hx.SomeValue{V: large()}
+		case 2: // [W(W(ref))]
+			v = hx.SomeValue{V: hx.SomeValue{V: large()}}
+		case 3: // [[[ref]]]: inlined arrays of one element each, three levels of one storable
+			v = arrayOf(addr, 21, arrayOf(addr, 22, large()))
+		case 4: // [{k: ref}] inlined map
+			v = mapOf(addr, 31, large())
+		case 5: // [W([W(ref)])]
+			v = hx.SomeValue{V: arrayOf(addr, 23, hx.SomeValue{V: large()})}
+		case 6: // [ref to a standalone child array]: the child is too large to be inlined and holds one reference among plain values
+			vs := []atree.Value{}
+			for i, n := 0, 14+rng.Intn(6); i < n; i++ {
+				vs = append(vs, small())
+			}
+			vs = append(vs, large())
+			v = arrayOf(addr, 24, vs...)
+		case 7: // [plain]: a leaf root
+			v = small()
+		default: // [[ref to a standalone child array [ref]]]: a chain of single references
+			vs := []atree.Value{arrayOf(addr, 26, large())}
+			for i, n := 0, 16+rng.Intn(6); i < n; i++ {
+				vs = append(vs, small())
+			}
+			v = arrayOf(addr, 25, arrayOf(addr, 27, vs...))
+		}
+		if shape%3 == 2 {
+			m := mapOf(addr, 8, v)
+			w.roots = append(w.roots, m.SlabID())
+		} else {
+			a := arrayOf(addr, 7, v)
+			w.roots = append(w.roots, a.SlabID())
+		}
+	}
+}
+
 // healthErrKind names the check of CheckStorageHealth that fired (the error messages are the only
 // thing that tells the FatalErrors apart).
 func healthErrKind(err error) string {
@@ -267,12 +357,14 @@ func healthErrKind(err error) string {
 	return "Other"
 }
 
-func healthStream(cfg *Config) *hx.Stats {
+func healthStream(cfg *Config) (res *hx.Stats) {
 	st := hx.NewStats("health", cfg.Seed)
 	rng := rand.New(rand.NewSource(cfg.Seed*31337 + 3))
 	w := hx.NewW(filepath.Join(cfg.Out, fmt.Sprintf("health-%d.trace", cfg.Seed)))
 	defer w.Close()
 	st.TraceFiles = append(st.TraceFiles, w.Path)
+	defer func() { atree.VerifSetThreshold(1024) }()
+	defer recoverAsViolation(st, w, &res)
 	nWorlds := int(10 * cfg.Scale)
 	distinct := map[string]bool{}
 	viol := func(prog int, what, sig string) {
@@ -370,7 +462,22 @@ func healthStream(cfg *Config) *hx.Stats {
 		sd, sc, sb := storageState(hw.ps, hw.ledger, diff)
 		w.L("STO d=%s c=%s b=%s", heapLine(sd), heapLine(sc), heapLine(sb))
 		w.L("ITER label=%s", label)
+		wantIDs, wantNotFound, predicted := expectedYield(hw.ps, hw.ledger)
+		cacheBefore, deltasBefore := atree.VerifCache(hw.ps), atree.VerifDeltas(hw.ps)
 		it, err := hw.ps.SlabIterator()
+		// slab iteration reads: neither the cache nor the write set changes (the slabs it fetches are not cached)
+		if !sameSlabObjects(cacheBefore, atree.VerifCache(hw.ps)) {
+			viol(prog, fmt.Sprintf("slab iteration changed the read cache: %d entries before, %d after (%s)", len(cacheBefore), len(atree.VerifCache(hw.ps)), label), "")
+		}
+		if !sameSlabObjects(deltasBefore, atree.VerifDeltas(hw.ps)) {
+			viol(prog, fmt.Sprintf("slab iteration changed the write set (%s)", label), "")
+		}
+		if predicted && wantNotFound && (err == nil || !strings.HasPrefix(hx.ErrKind(err), "SlabNotFound:")) {
+			viol(prog, fmt.Sprintf("slab iteration met a reference to a slab that is in no layer of the storage and did not fail with SlabNotFound (%s): %v", label, err), "")
+		}
+		if predicted && !wantNotFound && err != nil {
+			viol(prog, fmt.Sprintf("slab iteration failed although every reference it has to follow resolves (%s): %v", label, err), "")
+		}
 		if err != nil {
 			k := "Other"
 			if strings.HasPrefix(hx.ErrKind(err), "SlabNotFound:") {
@@ -388,6 +495,11 @@ func healthStream(cfg *Config) *hx.Stats {
 			}
 			hx.SortIDs(ids)
 			w.L("OBS ok:%s", strings.Join(idStrs(ids), ","))
+			// model-free: exactly the loaded slabs plus what hangs below them in the ledger, by the
+			// harness's own walk over write set, cache and registers
+			if predicted && !wantNotFound && strings.Join(idStrs(ids), ",") != strings.Join(idStrs(wantIDs), ",") {
+				viol(prog, fmt.Sprintf("slab iterator yielded %v, the loaded slabs and the registers below them are %v (%s)", idStrs(ids), idStrs(wantIDs), label), "")
+			}
 			// model-free: every live loaded slab is yielded exactly once; with everything loaded
 			// nothing else is yielded
 			n := map[atree.SlabID]int{}
@@ -429,10 +541,19 @@ func healthStream(cfg *Config) *hx.Stats {
 		st.Ops++
 		st.Hit("refs:" + strings.SplitN(label, "@", 2)[0])
 	}
+	type worldSpec struct {
+		seed      int64
+		kind      int
+		committed bool
+	}
+	var specs []worldSpec
 	for p := 0; p < nWorlds; p++ {
-		seed := cfg.Seed*1000 + int64(p)
-		kind := p % hwKinds
-		committed := (p/hwKinds)%2 == 1
+		specs = append(specs, worldSpec{cfg.Seed*1000 + int64(p), p % hwKinds, (p/hwKinds)%2 == 1})
+	}
+	// directed worlds, on every run: single-element containers, uncommitted and committed
+	specs = append(specs, worldSpec{cfg.Seed*1000 + 900, hwSingle, false}, worldSpec{cfg.Seed*1000 + 901, hwSingle, true})
+	for p, spec := range specs {
+		seed, kind, committed := spec.seed, spec.kind, spec.committed
 		build := func() *healthWorld { return buildWorld(seed, kind, committed) }
 		hw := build()
 		st.Programs++
@@ -577,11 +698,27 @@ func healthStream(cfg *Config) *hx.Stats {
 		// (e) only part of a committed storage is loaded: slab iteration has to fetch the rest from
 		//     the ledger (each slab once); a root that is not loaded is not seen at all
 		if committed && nr > 0 {
-			for variant := 0; variant < 3; variant++ {
+			for variant := 0; variant < 6; variant++ {
 				x := build()
 				x.ps = hx.NewStorage(x.ledger)
 				var load []atree.SlabID
 				label := "lazy-roots"
+				// the new variants draw from their own generator (the draws of the older cases stay what they were)
+				rng2 := rand.New(rand.NewSource(seed*7 + int64(variant)))
+				fetch := func(id atree.SlabID, cached bool) atree.Slab {
+					var s atree.Slab
+					var ok bool
+					var err error
+					if cached {
+						s, ok, err = x.ps.Retrieve(id)
+					} else {
+						s, ok, err = x.ps.RetrieveIgnoringDeltas(id, false)
+					}
+					if err != nil || !ok || s == nil {
+						panic(fmt.Sprintf("committed slab %s cannot be read back: found=%v err=%v", hx.IDStr(id), ok, err))
+					}
+					return s
+				}
 				switch variant {
 				case 0: // the roots only
 					load = x.roots
@@ -593,15 +730,109 @@ func healthStream(cfg *Config) *hx.Stats {
 						}
 					}
 					label = "lazy-some"
-				default: // all but the first root
+				case 2: // all but the first root
 					label = "lazy-root-missing"
 					for _, id := range all {
 						if id != x.roots[0] {
 							load = append(load, id)
 						}
 					}
+				case 3:
+					// loaded through Retrieve instead of BatchPreload, and some slabs PENDING: the roots are
+					// retrieved (cached); of the other slabs a third is stored again after a Retrieve (pending and
+					// cached), a sixth stored after a cache-bypassing read (pending only), a sixth only retrieved
+					// (cached), the rest stays in the ledger
+					label = "lazy-pending"
+					for _, id := range x.roots {
+						fetch(id, true)
+					}
+					for _, id := range nonRoots {
+						switch rng2.Intn(6) {
+						case 0, 1:
+							hcMust(x.ps.Store(id, fetch(id, true)))
+						case 2:
+							hcMust(x.ps.Store(id, fetch(id, false)))
+						case 3:
+							fetch(id, true)
+						}
+					}
+				case 4:
+					// directed: below up to four slabs holding several references, the FIRST referenced slab is
+					// pending (stored again) and its siblings are not loaded; the parent and the roots are cached
+					label = "lazy-pending-first-child"
+					for _, id := range x.roots {
+						fetch(id, true)
+					}
+					var multi []hslab
+					for _, s := range h0 {
+						if len(s.refs) >= 2 {
+							multi = append(multi, s)
+						}
+					}
+					if len(multi) == 0 {
+						continue
+					}
+					for _, i := range rng2.Perm(len(multi))[:min(4, len(multi))] {
+						par := multi[i]
+						fetch(par.id, true)
+						k := 0
+						if i%2 == 1 {
+							k = rng2.Intn(len(par.refs) - 1) // any but the last
+						}
+						hcMust(x.ps.Store(par.refs[k], fetch(par.refs[k], i%4 < 2)))
+					}
+					st.Hit("lazy:pending-child-before-unloaded-sibling")
+				default:
+					// the same situation produced by valid requests: every container is opened by its root
+					// identifier on the new storage and a few of its elements are overwritten (the library loads
+					// the path, stores the modified slabs; the other slabs stay in the ledger)
+					label = "lazy-pending-handle"
+					if len(x.conts) == 0 {
+						continue
+					}
+					pay := uint64(90000000)
+					for _, c := range x.conts {
+						if !c.plain {
+							continue
+						}
+						newVal := func() hx.TV {
+							pay++
+							if rng2.Intn(5) == 0 {
+								return hx.TV{Size: 130 + uint32(rng2.Intn(40)), Pay: pay}
+							}
+							return hx.TV{Size: uint32(10 + rng2.Intn(40)), Pay: pay}
+						}
+						dispose := func(old atree.Storable) {
+							if r, ok := old.(atree.SlabIDStorable); ok {
+								hcMust(x.ps.Remove(atree.SlabID(r)))
+							}
+						}
+						if c.isMap {
+							b := c.builder
+							if b == nil {
+								b = atree.NewDefaultDigesterBuilder()
+							}
+							m, err := atree.NewMapWithRootID(x.ps, c.root, b)
+							hcMust(err)
+							for j, n := 0, 1+rng2.Intn(3); j < n && len(c.keys) > 0; j++ {
+								old, err := m.Set(hx.CompareKey, hx.HashInput, c.keys[rng2.Intn(len(c.keys))], newVal())
+								hcMust(err)
+								dispose(old)
+							}
+						} else {
+							a, err := atree.NewArrayWithRootID(x.ps, c.root)
+							hcMust(err)
+							for j, n := 0, 1+rng2.Intn(3); j < n && c.n > 0; j++ {
+								old, err := a.Set(uint64(rng2.Intn(c.n)), newVal())
+								hcMust(err)
+								dispose(old)
+							}
+						}
+					}
 				}
-				hcMust(x.ps.BatchPreload(load, 2))
+				if variant < 3 {
+					hcMust(x.ps.BatchPreload(load, 2))
+				}
 				runIter(p, label, x)
 				curProg = p
 				sd, sc, sb := storageState(x.ps, x.ledger, diff)
@@ -614,10 +845,10 @@ func healthStream(cfg *Config) *hx.Stats {
 					}
 					hx.SortIDs(rs)
 					obs = "ok:" + strings.Join(idStrs(rs), ",")
-					if variant < 2 && obs != "ok:"+strings.Join(idStrs(x.roots), ",") {
+					if variant != 2 && obs != "ok:"+strings.Join(idStrs(x.roots), ",") {
 						viol(p, fmt.Sprintf("health check on a partly loaded healthy storage (%s) returned %s, the containers' roots are %v", label, obs, idStrs(x.roots)), "")
 					}
-				} else if variant < 2 {
+				} else if variant != 2 {
 					viol(p, fmt.Sprintf("health check rejected a partly loaded healthy storage (%s): %v", label, err), "")
 				}
 				w.L("STO d=%s c=%s b=%s", heapLine(sd), heapLine(sc), heapLine(sb))
@@ -673,6 +904,59 @@ func healthStream(cfg *Config) *hx.Stats {
 			st.HarnessErr = "the empty world is not empty"
 		}
 	}
+	// (f) DETACHED reference cycles beside healthy containers, on every run: slabs that refer to each
+	//     other in a ring and to nothing else.  Every slab of the ring has exactly one parent, every
+	//     reference resolves, there is no leaf below the ring, so no walk from a leaf ever enters it:
+	//     "not reachable from a root" is the FIRST (and only) check that can reject such a storage.
+	//     (The real functions return on it; what does not return is a ring with a leaf below it, see
+	//     the observation that follows.  GetAllChildReferences is not called on a slab of the ring.)
+	for v := 0; v < 6; v++ {
+		p := len(specs) + v
+		seed := cfg.Seed*1000 + 950 + int64(v)
+		kind := []int{hwArrays, hwMaps, hwNested, hwArrays, hwEmpty, hwCollide}[v]
+		var ring []atree.SlabID
+		build := func() *healthWorld {
+			x := buildWorld(seed, kind, false)
+			ring = addRing(x, v, rand.New(rand.NewSource(seed)))
+			return x
+		}
+		x := build()
+		nr := len(x.roots)
+		st.Programs++
+		w.L("CFG world=%d kind=%s+ring%d committed=false roots=%s ring=%s", p, hwNames[kind], v, strings.Join(idStrs(x.roots), ","), strings.Join(idStrs(ring), ","))
+		runCheck(p, fmt.Sprintf("detached-ring%d", v), x, nr, "Unreachable", "")
+		runCheck(p, fmt.Sprintf("detached-ring%d-nocount", v), x, -1, "Unreachable", "")
+		runCheck(p, fmt.Sprintf("detached-ring%d-wrongcount", v), x, nr+1, "Unreachable", "")
+		runIter(p, fmt.Sprintf("detached-ring%d", v), x)
+		// committed and read back by a new storage: everything loaded
+		hcMust(x.ps.FastCommit(2))
+		x.ps = hx.NewStorage(x.ledger)
+		hcMust(x.ps.BatchPreload(x.ledger.SortedIDs(), 3))
+		runCheck(p, fmt.Sprintf("detached-ring%d-committed", v), x, nr, "Unreachable", "")
+		runCheck(p, fmt.Sprintf("detached-ring%d-committed-nocount", v), x, -1, "Unreachable", "")
+		runIter(p, fmt.Sprintf("detached-ring%d-committed", v), x)
+		// partly loaded: the roots and ONE slab of the ring; slab iteration fetches the rest of the ring
+		// from the ledger and stops where the ring closes on the loaded slab
+		x.ps = hx.NewStorage(x.ledger)
+		for _, id := range append(append([]atree.SlabID{}, x.roots...), ring[0]) {
+			if _, ok, err := x.ps.Retrieve(id); err != nil || !ok {
+				panic(fmt.Sprintf("committed slab %s cannot be read back: %v", hx.IDStr(id), err))
+			}
+		}
+		label := fmt.Sprintf("lazy-detached-ring%d", v)
+		runIter(p, label, x)
+		curProg = p
+		sd, sc, sb := storageState(x.ps, x.ledger, diff)
+		_, err := atree.CheckStorageHealth(x.ps, nr)
+		if k := healthErrKind(err); k != "Unreachable" {
+			viol(p, fmt.Sprintf("health check on a storage with a detached reference ring %v (one of its slabs loaded) answered %s, the check that has to fire is Unreachable: %v", idStrs(ring), k, err), "")
+		}
+		w.L("STO d=%s c=%s b=%s", heapLine(sd), heapLine(sc), heapLine(sb))
+		w.L("HCS expected=%d label=%s", nr, label)
+		w.L("OBS %s", map[bool]string{true: "ok:?", false: "err:" + healthErrKind(err)}[err == nil])
+		st.Ops++
+		st.Hit("check:lazy-detached-ring")
+	}
 	// OBSERVATION (not a violation: cyclic storages are not produced by valid histories and are not
 	// one of the four corruption classes): on a reference cycle below a root the real functions do
 	// not return.  Exercised in a child process under a watchdog.
@@ -692,6 +976,15 @@ func healthStream(cfg *Config) *hx.Stats {
 		if nWorlds >= 2*hwKinds && st.Dist[need] == 0 {
 			st.HarnessErr = "required case never generated: " + need
 		}
+	}
+	// the directed cases of every run
+	for _, need := range []string{"world:single", "check:lazy-roots", "check:lazy-pending", "check:lazy-detached-ring", "check:detached-ring0", "check:detached-ring5-committed"} {
+		if st.Dist[need] == 0 {
+			st.HarnessErr = "required case never generated: " + need
+		}
+	}
+	if nWorlds >= 2*hwKinds && (st.Dist["lazy:pending-child-before-unloaded-sibling"] == 0 || st.Dist["check:lazy-pending-handle"] == 0) {
+		st.HarnessErr = "required case never generated: a pending slab next to an unloaded sibling (directed / through a container handle)"
 	}
 	st.Distinct = len(distinct)
 	st.TraceLines = w.Lines
@@ -739,6 +1032,73 @@ func dumpCases(s atree.Slab) []string {
 func hcSlab(ps *atree.PersistentSlabStorage, id atree.SlabID) atree.Slab {
 	s, _, _ := ps.Retrieve(id)
 	return s
+}
+
+// addRing adds a detached reference ring to the world: containers of which each holds exactly one
+// reference, to the next one, the last to the first (no slab has two parents, every reference
+// resolves, nothing of the world refers into the ring and the ring refers to nothing else).
+//
+//	0: A=[ref B], B=[ref A]                        1: A=[ref A]
+//	2: M={k: ref A}, A=[W(ref B)], B=[ref M]       3: A=[ref B], B=[ref A] under two different owners
+//	4: as 0 (the world is empty: the ring is all there is)
+//	5: 2-6 arrays, plain elements before and after the reference
+func addRing(x *healthWorld, v int, rng *rand.Rand) []atree.SlabID {
+	type node struct {
+		id  atree.SlabID
+		put func(atree.Value)
+	}
+	pay := uint64(50000000)
+	mkArr := func(addr atree.Address, before, after int) node {
+		a, err := atree.NewArray(x.ps, addr, hx.TI(50))
+		hcMust(err)
+		return node{a.SlabID(), func(ref atree.Value) {
+			for i := 0; i < before+after+1; i++ {
+				if i == before {
+					hcMust(a.Append(ref))
+					continue
+				}
+				pay++
+				hcMust(a.Append(hx.TV{Size: uint32(4 + rng.Intn(20)), Pay: pay}))
+			}
+		}}
+	}
+	mkMap := func(addr atree.Address) node {
+		m, err := atree.NewMap(x.ps, addr, atree.NewDefaultDigesterBuilder(), hx.TI(51))
+		hcMust(err)
+		return node{m.SlabID(), func(ref atree.Value) {
+			pay++
+			_, err := m.Set(hx.CompareKey, hx.HashInput, hx.TV{Size: 9, Pay: pay}, ref)
+			hcMust(err)
+		}}
+	}
+	home := hx.MkAddr(1)
+	var nodes []node
+	wrap := map[int]bool{}
+	switch v {
+	case 1:
+		nodes = []node{mkArr(home, 0, 0)}
+	case 2:
+		nodes = []node{mkMap(home), mkArr(home, 0, 0), mkArr(home, 0, 0)}
+		wrap[1] = true
+	case 3:
+		nodes = []node{mkArr(home, 0, 0), mkArr(hx.MkAddr(3), 0, 0)}
+	case 5:
+		for i, n := 0, 2+rng.Intn(5); i < n; i++ {
+			nodes = append(nodes, mkArr(home, rng.Intn(4), rng.Intn(4)))
+		}
+	default:
+		nodes = []node{mkArr(home, 0, 0), mkArr(home, 0, 0)}
+	}
+	var ids []atree.SlabID
+	for i, n := range nodes {
+		var ref atree.Value = RefV{nodes[(i+1)%len(nodes)].id}
+		if wrap[i] {
+			ref = hx.SomeValue{V: ref}
+		}
+		n.put(ref)
+		ids = append(ids, n.id)
+	}
+	return ids
 }
 
 // buildCycle: arrays A=[ref B, ref L], B=[ref A], L a large-value slab (no slab has two parents).
